@@ -355,7 +355,49 @@ func structFacts(e *env, p func(format string, args ...any)) {
 	} else {
 		e.fail("duplexHTTPCall.makeRequest not found")
 	}
+	// (9) the error a client's construction failed with is never handed to a caller as it is:
+	// in the four Call methods of Client, `c.err` occurs only in the nil test
+	errPrivate := true
+	nCallMethods := 0
+	for _, m := range []string{"Client.CallUnary", "Client.CallClientStream", "Client.CallServerStream", "Client.CallBidiStream"} {
+		fd, ok := e.funcs[m]
+		if !ok {
+			e.fail("%s not found", m)
+			errPrivate = false
+			continue
+		}
+		nCallMethods++
+		isClientErr := func(x ast.Expr) bool {
+			se, ok := x.(*ast.SelectorExpr)
+			if !ok || se.Sel.Name != "err" {
+				return false
+			}
+			id, ok := se.X.(*ast.Ident)
+			return ok && id.Name == "c"
+		}
+		ast.Inspect(fd.Body, func(n ast.Node) bool {
+			switch x := n.(type) {
+			case *ast.ReturnStmt:
+				for _, res := range x.Results {
+					ast.Inspect(res, func(k ast.Node) bool {
+						if ex, ok := k.(ast.Expr); ok && isClientErr(ex) {
+							errPrivate = false
+						}
+						return true
+					})
+				}
+			case *ast.AssignStmt:
+				for _, rhs := range x.Rhs {
+					if isClientErr(rhs) {
+						errPrivate = false
+					}
+				}
+			}
+			return true
+		})
+	}
 	p("\n(* ---- further structural facts (from the AST) ---- *)\n")
+	p("Definition client_construction_error_is_private : bool := %s. (* Client.Call*: c.err is tested, never returned or stored in what is returned: %d of 4 methods found *)\n", b(errPrivate), nCallMethods)
 	p("Definition duplex_101_body_replaced : bool := %s. (* makeRequest: `if ... StatusSwitchingProtocols { Body.Close(); Body = http.NoBody }` before d.response is assigned *)\n", b(bodyReplaced))
 	p("Definition metadata_excluded_headers : list bytes := (* mergeMetadataHeaders header.go; writers going through it: %d of 3 *)\n  [", viaFilter)
 	for i, k := range excluded {
